@@ -27,9 +27,7 @@ unsafe impl<L: Lockable> RawLock for OwnedLockCollection<L> {
 
 	unsafe fn raw_unlock_write(&self) {
 		let locks = utils::get_locks_unsorted(&self.data);
-		for lock in locks {
-			lock.raw_unlock_write();
-		}
+		utils::unlock_all_writes(&locks)
 	}
 
 	unsafe fn raw_read(&self) {
@@ -43,9 +41,7 @@ unsafe impl<L: Lockable> RawLock for OwnedLockCollection<L> {
 
 	unsafe fn raw_unlock_read(&self) {
 		let locks = utils::get_locks_unsorted(&self.data);
-		for lock in locks {
-			lock.raw_unlock_read();
-		}
+		utils::unlock_all_reads(&locks)
 	}
 }
 
